@@ -94,3 +94,47 @@ Definition chk_emb (t : pty) (sender : N) (members : list N) (items : list (N * 
   let items' := map (fun p => (from_raw_id (fst p), snd p)) items in
   bor (bit (match map_opt (ser_demux t) items' with Some w => wire_eqb w wire | None => false end) 1)
       (chk_wire t sender members items recv).
+
+(* demux_map under back-pressure: scripted one-slot member sinks, a contract-following sender.
+   impl = per member (key, (delivered, lost)) and the readiness the demux reported at each poll;
+   answers = per member the readiness answers it actually gave, one per poll *)
+Fixpoint wait_tr (fuel : nat) (d : dstate) (acc : list bool) : option (dstate * list bool) :=
+  match fuel with
+  | O => None
+  | S f => let '(d', r) := demux_poll d in
+           if r then Some (d', acc ++ [true]) else wait_tr f d' (acc ++ [false])
+  end.
+
+Fixpoint bp_tr (fuel : nat) (d : dstate) (items : list (N * N)) (acc : list bool) : option (dstate * list bool) :=
+  match items with
+  | [] => Some (map (fun km => (fst km, ms_take (snd km))) d, acc)
+  | (k, x) :: r =>
+      match wait_tr fuel d acc with
+      | None => None
+      | Some (d1, acc1) => match d_send d1 k x with Some d2 => bp_tr fuel d2 r acc1 | None => None end
+      end
+  end.
+
+Fixpoint bools_eqb (a b : list bool) : bool :=
+  match a, b with
+  | [], [] => true
+  | x :: a', y :: b' => Bool.eqb x y && bools_eqb a' b'
+  | _, _ => false
+  end.
+
+Definition chk_bp (fuel : nat) (init : list (N * list bool)) (items : list (N * N))
+           (impl : option (list (N * (list N * N)) * list bool)) (answers : list (N * list bool)) : N :=
+  let d0 := map (fun ks => (fst ks, mkMS (snd ks) None [] 0)) init in
+  match bp_tr fuel d0 items [], impl with
+  | None, None => 0
+  | Some (d', polls), Some (mem, ipolls) =>
+      bor (bit (bools_eqb polls ipolls &&
+                forallb (fun m => match d_get d' (fst m) with
+                                  | Some s => bytes_eqb (ms_got s) (fst (snd m)) && (ms_lost s =? snd (snd m))
+                                  | None => false end) mem) 1)
+          (bit (forallb (fun m => bytes_eqb (fst (snd m)) (addressed_to N.eqb (fst m) items) && (snd (snd m) =? 0)) mem &&
+                forallb (fun i => negb (nth i ipolls false) ||
+                                  forallb (fun ka => nth i (snd ka) true) answers)
+                        (seq 0 (length ipolls))) 2)
+  | _, _ => 3
+  end.
